@@ -86,6 +86,10 @@ unsigned long g_eval_str[G_MAXEVAL][4];
 #else
 #define ENS_PAYLOAD_TUPLE
 #endif
+/* a contract may restrict the domain of an operand (a stated assumption on what the child evaluates to) */
+#ifndef EVAL_EXTRA_CLAUSE
+#define EVAL_EXTRA_CLAUSE
+#endif
 #define ENS_PAYLOADS ENS_PAYLOAD_IMAGINARY ENS_PAYLOAD_LITERAL ENS_PAYLOAD_TABCHAR ENS_PAYLOAD_COMPLEX ENS_PAYLOAD_COLLECTION ENS_PAYLOAD_TUPLE
 
 /* Value& Expression::value(Context&) -- any node, as seen by its parent.
@@ -107,6 +111,7 @@ __CPROVER_ensures((__exc == 0 && __CPROVER_old(g_eval_n) == 3) ==> PTR_EQ(__CPRO
 __CPROVER_ensures(__exc == 0 ==> SET_EQ(__CPROVER_return_value->_value.i, g_eval_payload))
 __CPROVER_ensures(__exc == 0 ==> VALID_TAG(__CPROVER_return_value))
 ENS_PAYLOADS
+EVAL_EXTRA_CLAUSE
 __CPROVER_ensures(__exc == 0 ==> g_eval_n == __CPROVER_old(g_eval_n) + 1)
 __CPROVER_ensures(__exc == 0 ==> PTR_EQ(g_eval_ret[__CPROVER_old(g_eval_n)], __CPROVER_return_value))
 __CPROVER_ensures(__exc == 0 ==> PTR_EQ(g_eval_node[__CPROVER_old(g_eval_n)], e))
